@@ -59,6 +59,13 @@ def make_gen(tier):
             sto = S.gen_storage(ch, g, "sto", ["n1", "n2"], STO_FEATS)
         if sto.get("max_store_duration") is not None and (sto.get("start_level") or sto.get("inflow")):
             return None  # the duration option is only defined for start level 0 and no inflow
+        if sto.get("block_size") and sto.get("start"):
+            from ref.grid import parse_instant
+            ws = parse_instant(sto["start"], g.tz)
+            if ws not in g.all_points and ws > g.start:
+                # block boundaries would fall inside grid steps: whether such a step opens the new block or closes the old
+                # one is not defined anywhere - no claim
+                return None
         if pos == "last":
             assets.append(sto)
         else:
